@@ -4,6 +4,7 @@ from .. import core, agg
 
 ID = "C01"
 MODULE = "DrandProofs.C01"
+DEPENDS = ["C18"]  # the base store answers as a sorted map: re-checked with this property (check, P5b)
 THEOREMS = ["Drand.Beacon." + t for t in [
     "c01_store_valid", "c01_write_paths_verified", "c01_preimage_binds", "c01_digest_binds", "c01_unchained_ignores_prev",
     "c01_served_from_store", "c01_served_valid", "c01_randomness", "c01_randomness_exits", "c01_exact_round",
